@@ -219,6 +219,79 @@ def stdin_run(ck, stats, case, i):
     sb.cleanup()
 
 
+def unusable_stage(ck, stats):
+    """maildirs that cannot be used (missing, a file, new/ or cur/ missing or a file) next to a healthy one, and commands that
+    exist but cannot be executed: a non-zero status, the healthy maildir still processed"""
+    import stat as st_
+    kinds = ['missing', 'is-file', 'new-missing', 'cur-missing', 'new-is-file', 'cur-is-file']
+    for kind in kinds:
+        for order in (0, 1):
+            sb = mdrun.Sandbox()
+            good = sb.maildir('good'); dst = sb.maildir('dst')
+            bad = os.path.join(sb.root, 'bad')
+            if kind == 'is-file':
+                open(bad, 'w').close()
+            elif kind != 'missing':
+                for s_ in ('new', 'cur', 'tmp'):
+                    os.makedirs(os.path.join(bad, s_))
+                sub = kind.split('-')[0]
+                os.rmdir(os.path.join(bad, sub))
+                if kind.endswith('is-file'):
+                    open(os.path.join(bad, sub), 'w').close()
+                else:
+                    pass
+                other = 'cur' if sub == 'new' else 'new'
+                with open(os.path.join(bad, other, '1500000000.9_1.h' + (':2,S' if other == 'cur' else '')), 'wb') as f:
+                    f.write(b'To: a\n\nin the damaged maildir\n')
+            sb.add(good, 'new', b'To: a\n\nUNUSABLE-GOOD\n')
+            mds = [bad, good] if order == 0 else [good, bad]
+            conf = sb.write_conf(''.join('maildir "%s" {\n\tmatch all move "%s"\n}\n' % (m, dst) for m in mds))
+            rc, out, err = sb.run([], conf=conf)
+            stats['runs'] += 1; stats['unusable'] = stats.get('unusable', 0) + 1
+            moved = [b for b in sb.snapshot(dst).values() if b'UNUSABLE-GOOD' in b]
+            rep = {'kind': kind, 'order': order, 'exit': rc, 'stderr': err[-300:].decode(errors='replace')}
+            if rc == 0:
+                ck.violation('a maildir that is unusable (%s) is processed with exit status 0 (stderr %r)' % (kind, err[-120:]), rep)
+            elif len(moved) != 1:
+                ck.violation('an unusable maildir (%s, listed %s) prevents the healthy one from being processed (exit %d)' % (kind, 'first' if order == 0 else 'last', rc), rep)
+            sb.cleanup()
+    # programs that exist but cannot be executed
+    for what in ('no-x-bit', 'directory', 'below-a-file'):
+        for stdin_mode in (False, True):
+            sb = mdrun.Sandbox()
+            src = sb.maildir('src'); dst = sb.maildir('dst')
+            prog = os.path.join(sb.root, 'prog')
+            if what == 'no-x-bit':
+                with open(prog, 'w') as f:
+                    f.write('#!/bin/sh\nexit 0\n')
+                os.chmod(prog, 0o644)
+            elif what == 'directory':
+                os.makedirs(prog)
+            else:
+                open(prog, 'w').close(); prog = prog + '/sub'
+            msg = b'To: a\n\nUNUSABLE-CMD\n'
+            for cond, want_err in (('command "%s"' % prog, True), ('! command "%s"' % prog, True)):
+                head = 'stdin' if stdin_mode else 'maildir "%s"' % src
+                conf = sb.write_conf('%s {\n\tmatch %s move "%s"\n\tmatch all move "%s"\n}\n' % (head, cond, dst, dst))
+                if not stdin_mode:
+                    for k in sb.snapshot(src):
+                        os.unlink(os.path.join(src, k[0], k[1]))
+                    sb.add(src, 'new', msg)
+                for k in sb.snapshot(dst):
+                    os.unlink(os.path.join(dst, k[0], k[1]))
+                rc, out, err = sb.run(['-'] if stdin_mode else [], conf=conf, stdin=msg if stdin_mode else None)
+                stats['runs'] += 1; stats['unusable'] = stats.get('unusable', 0) + 1
+                moved = len(sb.snapshot(dst))
+                rep = {'program': what, 'stdin': stdin_mode, 'condition': cond, 'exit': rc, 'stderr': err[-300:].decode(errors='replace')}
+                if os.geteuid() == 0 and what == 'no-x-bit':
+                    pass        # (execve of a file without x bit fails for root as well: EACCES)
+                if rc == 0 or moved:
+                    ck.violation('a command that cannot be executed (%s) is not an error: exit %d, %d message(s) delivered (%s)' % (what, rc, moved, cond), rep)
+                elif stdin_mode and rc != 75:
+                    ck.violation('stdin mode: a command that cannot be executed (%s) gives exit %d instead of 75' % (what, rc), rep)
+            sb.cleanup()
+
+
 def stdin_fault_runs(ck, stats):
     """every single fault on every call of a stdin delivery: status must be 75 (or 0 with the message stored)"""
     for scen in iorun.corpus('quick'):
@@ -263,16 +336,17 @@ def run(ck):
     for i, case in enumerate(STDIN_CASES):
         stdin_run(ck, stats, case, i)
     stdin_fault_runs(ck, stats)
+    unusable_stage(ck, stats)
     ck.coverage.update({
         'evaluations': stats['runs'],
         'distinct_nontrivial': stats['msgs'] + stats['stdin'] + stats['stdin_faults'],
         'rule': 'populations of 1-3 maildirs x 1-7 messages, each message healthy or carrying one defect from {date-bad, b64-bad, mime-deep, mime-noterm, '
                 'dest:nowhere, exec:3, interp, flags-bad}, defect probability 0 / 0.2 / 0.5 / 1, occasionally an unusable maildir; stdin: 17 rule/message '
-                'cases and every call index x failure of a stdin delivery. non-trivial = one message verdict (or one stdin run); counted per message',
+                'cases and every call index x failure of a stdin delivery; 12 runs with a damaged maildir (missing, a file, new/ or cur/ missing or a file) beside a healthy one and 12 with a command that exists but cannot be executed. non-trivial = one message verdict (or one stdin run); counted per message',
         'samples': samples,
         'traces_validated_against_impl': stats['runs'],
         'messages_per_kind': stats['kinds'],
-        'stdin_cases': stats['stdin'], 'stdin_fault_runs': stats['stdin_faults'],
+        'stdin_cases': stats['stdin'], 'stdin_fault_runs': stats['stdin_faults'], 'unusable_maildir_and_command_runs': stats.get('unusable', 0),
     })
     ck.assumptions += ['sh is available for exec actions', 'outcome per message as observed on the tree (processed completely / untouched)']
 
